@@ -104,3 +104,16 @@ pub fn parser_with(
         }
     }
 }
+
+pub fn parser_with_source<S>(c: Config, policy: Policy, src: S) -> liquid_core::Result<Parser>
+where
+    S: liquid::partials::PartialSource + Send + Sync + 'static,
+{
+    match policy {
+        Policy::Eager => base(ParserBuilder::new().partials(EagerCompiler::new(src)), c).build(),
+        Policy::Lazy => base(ParserBuilder::new().partials(LazyCompiler::new(src)), c).build(),
+        Policy::OnDemand => {
+            base(ParserBuilder::new().partials(OnDemandCompiler::new(src)), c).build()
+        }
+    }
+}
